@@ -890,4 +890,61 @@ theorem host_names_ok (dp : Dataplane) (names : List Bytes) (dflt : Bytes) (wlp 
     · exact hF dflt
     · exact hT dflt
 
+/-! ### nftables verdict maps: desired / dataplane tracking -/
+
+/-- **add-or-replace + Apply converges, from ANY prior state**: afterwards the kernel holds exactly
+the new member set — in particular nothing at all when the new set is empty. -/
+theorem mapState_apply_mem (s : MapState) (m : List Member) (e : Member) :
+    e ∈ ((s.addOrReplace m).apply).dataplane ↔ e ∈ m := by
+  simp only [MapState.apply, MapState.addOrReplace, MapState.pendingDeletions, MapState.pendingAdds,
+    List.mem_append, List.mem_filter, List.contains_eq_mem, Bool.not_eq_true', decide_eq_false_iff_not,
+    Bool.and_eq_true, decide_eq_true_eq, not_and, Decidable.not_not]
+  constructor
+  · rintro (⟨h1, h2⟩ | ⟨h1, _⟩)
+    · exact h2 h1
+    · exact h1
+  · intro h
+    by_cases hd : e ∈ s.dataplane
+    · exact Or.inl ⟨hd, fun _ => h⟩
+    · exact Or.inr ⟨h, hd⟩
+
+theorem find_val_of_set_eq (l1 l2 : List Member) (hset : ∀ e, e ∈ l1 ↔ e ∈ l2)
+    (hfun : ∀ k v v', (k, v) ∈ l2 → (k, v') ∈ l2 → v = v') (key : Bytes) :
+    (l1.find? fun kv => kv.1 == key).map (·.2) = (l2.find? fun kv => kv.1 == key).map (·.2) := by
+  cases h1 : l1.find? fun kv => kv.1 == key with
+  | none =>
+    cases h2 : l2.find? fun kv => kv.1 == key with
+    | none => rfl
+    | some e =>
+      exfalso
+      have hm := List.mem_of_find?_eq_some h2
+      have hk := List.find?_some h2
+      have := List.find?_eq_none.1 h1 e ((hset e).2 hm)
+      exact this hk
+  | some e =>
+    have hm := (hset e).1 (List.mem_of_find?_eq_some h1)
+    have hk : e.1 = key := by simpa using List.find?_some h1
+    cases h2 : l2.find? fun kv => kv.1 == key with
+    | none =>
+      exfalso
+      have := List.find?_eq_none.1 h2 e hm
+      exact this (by simpa using hk)
+    | some e' =>
+      have hm' := List.mem_of_find?_eq_some h2
+      have hk' : e'.1 = key := by simpa using List.find?_some h2
+      obtain ⟨k, v⟩ := e
+      obtain ⟨k', v'⟩ := e'
+      simp only at hk hk'
+      subst hk; subst hk'
+      simp only [Option.map_some]
+      rw [hfun _ _ _ hm hm']
+
+theorem dispatchMappings_functional (names : List Bytes) (pfx : String) :
+    ∀ k v v', (k, v) ∈ (dedupAdj none (sortNames names)).map (fun n => (n, endpointChainName pfx n)) →
+      (k, v') ∈ (dedupAdj none (sortNames names)).map (fun n => (n, endpointChainName pfx n)) → v = v' := by
+  intro k v v' h1 h2
+  obtain ⟨n1, _, e1⟩ := List.mem_map.1 h1
+  obtain ⟨n2, _, e2⟩ := List.mem_map.1 h2
+  cases e1; cases e2; rfl
+
 end CalicoVerif.C10
